@@ -201,25 +201,44 @@ def check(ctx):
         if fdefs and any(a.arg == "rtol" for a in fdefs[0].args.args):
             dfi = FunctionInfo("doc.stop", fdefs[0], sc.module)
             doc_ret = evaluate(repo, dfi).ret()
-    ctx.ob("C20.R4", sc, "the Stopper docstring contains the pseudo-code of the tolerance "
-                         "rule", doc_ret is not None)
-    if doc_ret is not None and rs is not None:
+    # reference rule, from the property statement: after a full window, the oldest loss of
+    # the window is within the absolute or the relative tolerance of the best one
+    W0 = ("s", W, c(0))
+    best = ("call", ("g", "np.min"), (W,), ())
+    diff = ("op", "-", W0, best)
+    ref_rule = ("op", "|", cmp_("<=", diff, n("atol")),
+                cmp_("<=", ("op", "/", diff, ("call", ("g", "np.abs"), (best,), ())),
+                     n("rtol")))
+    after = cmp_(">", i_, p_)
+    impl_c = None
+    if rs is not None:
         impl = substitute(rs, {window: W, ("a", n("self"), "atol"): n("atol"),
                                ("a", n("self"), "rtol"): n("rtol")})
+        impl = substitute(impl, {("proj", W, 0): W0})
+        impl_c = _canon(impl)
+        ok = impl_c in (("op", "&", ref_rule, _canon(after)),
+                        ("op", "&", _canon(after), ref_rule))
+        ctx.ob("C20.R4", se, "stop_early == (oldest - best <= atol  |  (oldest - best) / "
+                             "|best| <= rtol, oldest = first and best = min of the window) "
+                             "& (i > patience)", ok,
+               detail=f"implementation {short(impl_c, 300)}",
+               stmt="stop_early " + pretty(impl_c)[:260])
+    if doc_ret is not None and impl_c is not None:
         docw = None
         for x in subterms(doc_ret):
             if x[0] == "s" and x[1] == n("loss_history"):
                 docw = x
         docn = substitute(doc_ret, {docw: W}) if docw else doc_ret
-        impl_c, doc_c = _canon(impl), _canon(docn)
-        after = cmp_(">", i_, p_)
-        ok = impl_c == ("op", "&", doc_c, _canon(after))
-        ctx.ob("C20.R4", se, "stop_early == (documented rule: diff <= atol | diff/abs(best) "
-                             "<= rtol, oldest = first, best = min of the window) & (i > "
-                             "patience)", ok,
-               detail=f"implementation {short(impl_c, 260)}; documented {short(doc_c, 200)}",
-               stmt="stop_early " + pretty(impl_c)[:260],
+        doc_c = _canon(docn)
+        ctx.ob("C20.R4", sc, "the pseudo-code in the Stopper docstring states the same rule "
+                             "as the implementation (documentation and code have not "
+                             "drifted apart)", impl_c in (("op", "&", doc_c, _canon(after)),
+                                                          ("op", "&", _canon(after), doc_c)),
+               detail=f"documented {short(doc_c, 200)}", stmt="doc drift " + pretty(doc_c)[:200],
                facts={"documented": pretty(doc_c)[:300]})
+    else:
+        ctx.ob("C20.R4", sc, "(no pseudo-code block in the docstring: nothing to compare)",
+               True, nontrivial=False)
     sn = method(repo, sc, "stop_now", own=True)
     rn = evaluate(repo, sn).ret()
     early = ("call", ("a", n("self"), "stop_early"), (i_, n("loss_history")), ())
